@@ -1302,6 +1302,8 @@ def getattr_builtin(it, obj: V, name: str) -> V:
             return VClass(py=exc)
         if full == "os.environ":
             return VLib("environ")
+        if full == "sys.modules":
+            return VLib("sys.modules")
         return VBuiltin(full)
     if isinstance(obj, VLib):
         return lib_getattr(it, obj, name)
